@@ -26,7 +26,7 @@ for p in (VERIF, REPO):
 from vp import engine  # noqa: E402
 from vp.engine import REGISTRY, JobResult  # noqa: E402
 
-EVIDENCE_DIR = os.path.join(VERIF, "evidence")
+EVIDENCE_DIR = os.environ.get("VP_EVIDENCE_DIR") or os.path.join(VERIF, "evidence")  # override: seeded-change runs must not rewrite real evidence
 REPLAY_DIR = os.path.join(EVIDENCE_DIR, "replay")
 KNOWN_FILE = os.path.join(VERIF, "known_findings.json")
 GUARD = "TWOSIGMA_MEMENTO_VERIF"
